@@ -128,6 +128,17 @@ def minT (a b : Term) : Term := .ite (.le a b) a b
 def overlapT (b : BusyRef) (lo hi : Int) : Term :=
   maxT (numT 0) (.sub (minT b.e (numT hi)) (maxT b.s (numT lo)))
 
+/-- ResourceInterrupted, one busy interval (the clauses of `InterruptedOK`) -/
+def interruptedF (b : BusyRef) (t : Task) (ivs : List (Int × Int)) : List Fml :=
+  match t.kind with
+  | .var minD maxD _ =>
+      let tot := sumOrZero (ivs.map (fun iv => overlapT b iv.1 iv.2))
+      ivs.flatMap (fun iv => [Fml.or [.le b.s (numT iv.1), .ge b.s (numT iv.2)],
+                              Fml.or [.le b.e (numT iv.1), .ge b.e (numT iv.2)]]) ++
+      [Fml.ge t.dVar (.add (numT minD) tot)] ++
+      (match maxD with | some m => [Fml.imp (.le b.s b.e) (.le t.dVar (.add (numT m) tot))] | none => [])
+  | _ => ivs.map (fun iv => Fml.or [.ge b.s (numT iv.2), .le b.e (numT iv.1)])
+
 def CBody.resMeaningF : CBody → Option Fml
   | .unavailable busy ivs =>
       some (.and (ivs.flatMap (fun iv => busy.map (fun b => Fml.or [.ge b.s (numT iv.2), .le b.e (numT iv.1)]))))
@@ -146,6 +157,10 @@ def CBody.resMeaningF : CBody → Option Fml
         Fml.or ([Fml.ge b.s (.add (numT iv.2) shift), Fml.le b.e (.add (numT iv.1) shift)] ++
           (if start > 0 then [Fml.le b.e (numT start)] else []) ++
           (match end_ with | some en => [Fml.ge b.s (numT en)] | none => []))))))
+  | .interrupted ws ivs =>
+      if ivs.all (fun iv => decide (iv.1 < iv.2)) then
+        some (.and (ws.flatMap (fun w => w.flatMap (fun bt => interruptedF bt.1 bt.2 ivs))))
+      else none
   | .sameWorkers s1 s2 =>
       some (.and ((s1.workers.filter (fun w => s2.workers.contains w)).map (fun w =>
         Fml.iff (.bvar (.sel s1.id w)) (.bvar (.sel s2.id w)))))
